@@ -44,10 +44,63 @@ def run_module(ctx):
     return results
 
 
+def trace_validation(ctx):
+    """Free-running server executions recorded by the H4 hooks, validated by TLC against Trace_Serve.tla."""
+    rounds = 24 if ctx.thorough else 5
+    trace = ctx.path("trace.ndjson")
+    res = lib.vh(ctx, "serve", None, opts={"freerun": trace, "rounds": rounds}, out_name="freerun", timeout=1200)
+    env = {"TRACE": trace, "JAVA_TOOL_OPTIONS": "-Xss1g -Dtlc2.tool.queue.IStateQueue=StateDeque"}
+    t = lib.tlc(ctx, "trace_serve", "Trace_Serve.tla", "Trace_Serve.cfg", workers=1, timeout=1500, env_extra=env,
+                expect_ok=False, count=False, cacheable=False)
+    with open(t["out"], errors="replace") as f:
+        out = f.read()
+    accepted = t["rc"] == 0 and "No error has been found" in out and "TRACE-REJECTED" not in out
+    r = res["per_property"]["C15"]
+    r.setdefault("notes", {})["trace_accepted"] = accepted
+    if not accepted:
+        import re
+        m = re.search(r"TRACE-REJECTED.*", out)
+        keep = os.path.join(lib.REPLAYS, "C15-trace-%d.ndjson" % ctx.seed)
+        os.makedirs(lib.REPLAYS, exist_ok=True)
+        import shutil
+        shutil.copyfile(trace, keep)
+        r.setdefault("violations", []).append({
+            "sig": "trace-rejected", "detail": "a recorded execution of the real server is not a behaviour of Trace_Serve.tla: "
+            + (m.group(0)[:400] if m else out[-400:]), "behaviour": {"trace_file": keep}, "observed": {}})
+    else:
+        # the binding has teeth: one corrupted field must make TLC reject the trace
+        lines = open(trace).read().splitlines()[:400]
+        bad = ctx.path("trace_corrupt.ndjson")
+        done = False
+        with open(bad, "w") as f:
+            for l in lines:
+                if not done and '"ev":"Install"' in l and '"changed":1' in l and '"serial":0' not in l:
+                    l = re_sub_serial(l)
+                    done = True
+                f.write(l + "\n")
+        if done:
+            env2 = dict(env, TRACE=bad)
+            t2 = lib.tlc(ctx, "trace_serve_corrupt", "Trace_Serve.tla", "Trace_Serve.cfg", workers=1, timeout=600, env_extra=env2,
+                         expect_ok=False, count=False, cacheable=False)
+            with open(t2["out"], errors="replace") as f:
+                if "TRACE-REJECTED" not in f.read():
+                    raise lib.ToolError("a corrupted trace is accepted by Trace_Serve.tla: the trace specification lost its teeth")
+            r["notes"]["corrupted_trace_rejected"] = True
+    return r
+
+
+def re_sub_serial(line):
+    import re
+    return re.sub(r'"serial":(\d+)', lambda m: '"serial":%d' % (int(m.group(1)) + 1), line, count=1)
+
+
 def _run(ctx):
     pid = ctx.pid
     results = run_module(ctx)
-    r = lib.merge_results(*[x["per_property"][pid] for x in results])
+    parts = [x["per_property"][pid] for x in results]
+    if pid == "C15":
+        parts.append(trace_validation(ctx))
+    r = lib.merge_results(*parts)
     unreal = r.get("notes", {}).get("unrealised_schedules", 0)
     if unreal and unreal > 0.2 * max(1, ctx.extra.get("schedules_exported", 1)):
         raise lib.ToolError("%d schedules could not be realised against the code: model fidelity problem" % unreal)
